@@ -216,6 +216,7 @@ func runC17(r *ev.Recorder) {
 	}
 	// (c)
 	v1 := units(unitLen1)
+	v1short := units(1)
 	v2 := units(2)
 	nk := len(c17Keys)
 	for mask := 1; mask < 1<<nk; mask++ {
@@ -229,15 +230,19 @@ func runC17(r *ev.Recorder) {
 			continue
 		}
 		ks2 := ks
+		vals := v1
+		if len(ks) == 3 {
+			vals = v1short // three keys: values of length <= 1 in both tiers (703^3 would be 3.5e8 per subset)
+		}
 		total := int64(1)
 		for range ks2 {
-			total *= int64(len(v1))
+			total *= int64(len(vals))
 		}
 		explore.Range(total, 0, r.Expired, func(_ int, i int64) {
 			m := map[string]string{}
 			for _, k := range ks2 {
-				m[k] = v1[i%int64(len(v1))]
-				i /= int64(len(v1))
+				m[k] = vals[i%int64(len(vals))]
+				i /= int64(len(vals))
 			}
 			one(m, false)
 		})
